@@ -17,6 +17,10 @@ class ProgGen:
        'dead-after-jump'  statements after break/continue/return in the same suite
        'aug'         augmented assignment
        'boolop-in-expr'  an and/or as the right operand of + or < whose left operand calls the oracle
+       'raise-test'  call-free tests that raise for some values of the variables (a / b, a % b, (a, b)[b]): the
+                     variables take the oracle's values 0, 1, 2 through assignments, so some paths raise
+       'while-true'  `while True:` loops that consult the oracle on every iteration and leave by a break - a plain
+                     one, or one in the else clause of a nested for loop
        'chain'       chained comparisons whose operands call the oracle (the middle one is evaluated once, the
                      last one only when the first link holds)
     """
@@ -39,6 +43,10 @@ class ProgGen:
         for o in ops:
             out += " %s %s" % (o, self.rng.choice([self.ext(), self.ext(), self.rng.choice(self.vars)]))
         return out
+
+    def raising(self):
+        x, y = self.rng.choice(self.vars), self.rng.choice(self.vars)
+        return self.rng.choice(["%s / %s" % (x, y), "%s %% %s" % (x, y), "(a, b)[%s]" % y, "%s // %s == 0" % (x, y)])
 
     def value(self):
         r = self.rng.random()
@@ -81,6 +89,8 @@ class ProgGen:
         r = self.rng.random()
         if "chain" in self.f and r < 0.06:
             return self.chain()
+        if "raise-test" in self.f and r < 0.1:
+            return self.raising()
         if r < 0.3:
             return "%s == 1" % self.ext()
         if r < 0.5:
@@ -136,7 +146,8 @@ class ProgGen:
         if r < 0.46:
             # a conditional both of whose arms are no-ops: the test must still be evaluated
             t = self.rng.choice(["%s < %s" % (self.ext(), self.ext()), "%s == 1" % self.ext(),
-                                 "%s < %s" % (self.rng.choice(self.vars), self.ext())])
+                                 "%s < %s" % (self.rng.choice(self.vars), self.ext())]
+                                + ([self.raising(), self.raising()] if "raise-test" in self.f else []))
             out = [p + "if %s:" % t, p + "    pass"]
             if inloop and self.rng.random() < 0.3:
                 out = [p + "if %s:" % t, p + "    continue"] if self.rng.random() < 0.5 else out
@@ -152,6 +163,18 @@ class ProgGen:
                 out += [p + "else:"] + self.suite(depth - 1, inloop, ind + 4)
             return out
         if r < 0.88 or "for" not in self.f:
+            if "while-true" in self.f and self.rng.random() < 0.06:
+                q = " " * (ind + 4)
+                out = [p + "while %s:" % self.rng.choice(["True", "1"])]
+                if self.rng.random() < 0.5:
+                    out += [q + "if %s:" % self.ext(), q + "    break"]
+                else:
+                    self.nfor += 1
+                    out += [q + "for i%d in seq(%s):" % (self.nfor, self.ext())] + self.suite(depth - 1, True, ind + 8)
+                    out += [q + "else:", q + "    break"]
+                if self.rng.random() < 0.6:
+                    out += self.suite(depth - 1, True, ind + 4)
+                return out
             if "const-test" in self.f and self.rng.random() < 0.05:
                 # a falsy literal as the test of a while: the body never runs, an else clause always does
                 # (a truthy one would spin; seeded change C07-r7 dropped the else clause of `while 0:`)
@@ -178,7 +201,7 @@ class ProgGen:
         return "\n".join(["def f(a, b):"] + body) + "\n"
 
 
-CLEAN = {"boolop", "not", "attr", "for", "while-else", "for-else", "aug", "const-test", "chain"}
+CLEAN = {"boolop", "not", "attr", "for", "while-else", "for-else", "aug", "const-test", "chain", "raise-test", "while-true"}
 ALL = CLEAN | {"nested-boolop", "for-live", "dead-after-jump", "boolop-in-expr"}
 
 
